@@ -44,7 +44,7 @@ static inline void c05_memset(R* d, int c, size_t bytes)
    __CPROVER_assert(c == 0 && bytes == (size_t)g_n * sizeof(R), "memset(coef, 0, numRows() * sizeof(R))");
    if(bytes > 0)
    {
-      __CPROVER_havoc_slice(d, bytes);
+      __CPROVER_havoc_object(d);
       if(0 <= g_p && g_p < g_n) d[g_p] = 0;
    }
 }
